@@ -136,4 +136,4 @@ def streams(tier, rng):
 
         def nontrivial(c, o):
             return c if o.count(' H') + o.count(' E-113') >= 2 else None
-        yield {'name': name, 'cases': cases, 'model': model, 'project': project, 'oracle': oracle_factory(info), 'nontrivial': nontrivial}
+        yield {'name': name, 'coqcheck': True, 'cases': cases, 'model': model, 'project': project, 'oracle': oracle_factory(info), 'nontrivial': nontrivial}
